@@ -210,6 +210,12 @@ Fixpoint dump_d (d : hdescr) (h : hist) (kw : kwargs) : option hist :=
   | (k, v) :: t => match dump1_d d h k v with Some h' => dump_d d h' t | None => None end
   end.
 
+Fixpoint dumps_d (d : hdescr) (h : hist) (l : list kwargs) : option hist :=
+  match l with
+  | [] => Some h
+  | kw :: t => match dump_d d h kw with Some h' => dumps_d d h' t | None => None end
+  end.
+
 Definition std_descr : hdescr := {|
   hd_history_keys := HISTORY_KEYS;
   hd_member_positive := true;
